@@ -116,7 +116,7 @@ impl VariablesState {
         // Constructing new variable pointer reference
         if var_ass.is_new_declaration {
             if let Some(var_pointer) = Value::get_value::<&VariablePointerValue>(value.as_ref()) {
-                value = self.resolve_variable_pointer(var_pointer);
+                value = self.resolve_variable_pointer(var_pointer)?;
             }
         } else {
             // Assign to an existing variable pointer
@@ -164,30 +164,40 @@ impl VariablesState {
     // pointer that more specifically points to the exact instance: whether it's
     // global,
     // or the exact position of a temporary on the callstack.
-    fn resolve_variable_pointer(&self, var_pointer: &VariablePointerValue) -> Rc<Value> {
+    fn resolve_variable_pointer(
+        &self,
+        var_pointer: &VariablePointerValue,
+    ) -> Result<Rc<Value>, StoryError> {
         let mut context_index = var_pointer.context_index;
         if context_index == -1 {
             context_index = self.get_context_index_of_variable_named(&var_pointer.variable_name);
         }
 
-        let value_of_variable_pointed_to =
-            self.get_raw_variable_with_name(&var_pointer.variable_name, context_index);
+        // A name that is not a variable here (e.g. a temp whose declaration has
+        // not been executed) gives a reference nothing to point to.
+        let value_of_variable_pointed_to = self
+            .get_raw_variable_with_name(&var_pointer.variable_name, context_index)
+            .ok_or_else(|| {
+                StoryError::InvalidStoryState(format!(
+                    "Variable not found: '{}' is passed by reference but is not a variable here",
+                    var_pointer.variable_name
+                ))
+            })?;
         // Extra layer of indirection:
         // When accessing a pointer to a pointer (e.g. when calling nested or
         // recursive functions that take a variable references, ensure we don't
         // create
         // a chain of indirection by just returning the final target.
-        if let Some(value_of_variable_pointed_to) = value_of_variable_pointed_to
-            && Value::get_value::<&VariablePointerValue>(value_of_variable_pointed_to.as_ref())
-                .is_some()
+        if Value::get_value::<&VariablePointerValue>(value_of_variable_pointed_to.as_ref())
+            .is_some()
         {
-            return value_of_variable_pointed_to;
+            return Ok(value_of_variable_pointed_to);
         }
 
-        Rc::new(Value::new_variable_pointer(
+        Ok(Rc::new(Value::new_variable_pointer(
             &var_pointer.variable_name,
             context_index,
-        ))
+        )))
     }
 
     // returns true if the value changed and we should notify variable observers
